@@ -24,7 +24,9 @@ ASSUMPTIONS = [
     'after stop(), restart() re-arms the process but the callback stays suppressed ("never fires again")',
     'time is exact rational in the theorems; the executable model runs at IEEE double and is compared bit for bit',
     'URGENT events (Initialize, Interruption) precede every NORMAL event of their instant (C01 theorems of the kernel model)',
-    'that the Timer generator running on the real kernel refines the LTS is checked by this replay, not proved',
+    'that the Timer generator running on the kernel MODEL refines the LTS is a theorem (Props/C19K.lean: TimerOnK.body, one controller process, '
+    'scalar argument); that the kernel model and the real kernel agree on that program is checked by the timerk leg; for the other '
+    'shapes of use (several actors, several calls per burst, t0 > 0) the link to the LTS is this replay',
 ]
 
 DY = [0.25, 0.5, 0.5, 0.75, 1, 1, 1.5, 2, 3]
